@@ -235,6 +235,17 @@ class CallMixin(object):
             raise OutOfReach('attribute store on %r' % (base,))
         cname = base.ty.args[0]
         scls, s = self.class_lookup(cname, '__setattr__')
+        # attribute-specialised interface contract  <Class>.__setattr__[attr]  along the MRO of the static class
+        if cname in self.world.classes:
+            for k in self.world.classes[cname].__mro__:
+                ck = '%s:%s.__setattr__[%s]' % (k.__module__, k.__qualname__, attr)
+                c = self.world.contracts.get(ck)
+                if c is not None and (ck != self.top_key_active() or self.call_stack):
+                    if ck == self.top_key_active():
+                        break
+                    for st1, r in self.apply_contract_env(st, c, {'self': base, 'name': mk(attr), 'value': val}):
+                        yield st1, (r if isinstance(r, Raised) else None)
+                    return
         if s is not None and scls is not object:
             self.check_uniform(cname, '__setattr__', s)
             for st1, r in self.call_function(st, s, [base, mk(attr), val], {}, fr, defcls=scls):
